@@ -79,6 +79,22 @@ func (ef *effects) bodyPure(u *FuncUnit) bool {
 		}
 		return v.Pos() >= lo && v.Pos() <= hi && !v.IsField()
 	}
+	// memory the function has just obtained for itself (a node from the pool, new(T), &T{…}) and
+	// holds in a local defined once: filling it in before handing it back writes nothing that
+	// existed for the caller (newNode4(prefixLen, prefix) – a constructor)
+	plainLocal := localValue
+	freshLocal := func(e ast.Expr) bool {
+		v, through := rootVar(info, e)
+		if v == nil || !through || v.IsField() || u.Body == nil {
+			return false
+		}
+		if v.Pos() < u.Body.Pos() || v.Pos() > u.Body.End() {
+			return false
+		}
+		def := singleDef(info, u.Body, v)
+		return def != nil && isFreshExprDepth(ef.m, def, 2)
+	}
+	localValue = func(e ast.Expr) bool { return plainLocal(e) || freshLocal(e) }
 	ast.Inspect(u.Body, func(n ast.Node) bool {
 		if !pure {
 			return false
@@ -113,6 +129,9 @@ func (ef *effects) bodyPure(u *FuncUnit) bool {
 				pure = false // range-over-func calls an unknown function
 			}
 		case *ast.CallExpr:
+			if (isBuiltinCall(info, x, "copy") || isBuiltinCall(info, x, "clear")) && len(x.Args) > 0 && freshLocal(x.Args[0]) {
+				return true
+			}
 			if !ef.callPure(x) {
 				pure = false
 			}
